@@ -211,8 +211,9 @@ class Machine:
         env = dict(env)
         for ctype, is_ptr, name, e in decls:
             if ctype == "HexOp":
-                env[name] = ("opvar", name)
-                env["&" + name] = ("opvar", name)
+                # a HexOp declared as a struct is handed on as &name, one declared as a pointer as name
+                env[name] = ("opvar", name, "ptr" if is_ptr else "struct")
+                env["&" + name] = ("opvar", name, "ptr" if not is_ptr else "ptrptr")
                 continue
             env[name] = self.subst(e, env)
         return self.subst(ret, env)
@@ -520,6 +521,8 @@ class Machine:
             if (kind == "ext:bundle" and not is_bundle) or (kind != "ext:bundle" and is_bundle) or (kind == "pure" and is_op) \
                     or (kind == "ext:hexop" and a[0] not in ("var", "opvar")):
                 raise ILError(f"ill-sorted argument: parameter {pn} ({kind}) of {name} gets {str(a)[:60]}")
+            if kind == "ext:hexop" and a[0] == "opvar" and len(a) > 2 and a[2] != "ptr":
+                raise ILError(f"ill-sorted argument: parameter {pn} (const HexOp *) of {name} gets a HexOp {a[2]} ({a[1]})")
         if self.scoped:
             vals = []
             for a, kind in zip(args, kinds):
